@@ -50,6 +50,9 @@ ASSUMPTIONS = [
     "a purge at a transfer's source is only issued after the target stored the dataset (what C04 guarantees of the controller); purges "
     "at the target may come at any time",
     "shared memory is an in-memory stand-in (real shm: C08/C09); sockets are in-memory (real ones: C05)",
+    "real-data-plane samples (1 per shard quick = 16, 4 thorough): two real shm server processes, two real DataServer processes with "
+    "their real 2-thread pools, real zmq over loopback, 3-12 transfer / fetch commands issued back to back over datasets of 1 B - 1.5 MB; "
+    "the schedule there is the operating system's: sampled executions, not a search",
 ]
 TIERS = {
     "quick": {"cases": 8000, "shards": 16},
@@ -463,13 +466,46 @@ def run_case(c, holder) -> tuple[bool, list[str], object]:
     return nt, tags, common.fingerprint(ch.log)
 
 
+_real_n = [0]
+
+
+def _real_body(stats):
+    """One sample of the real data plane: real shm servers, real DataServer processes, real zmq (harness/realdata.py)."""
+    import os
+
+    from .. import realdata
+
+    def body(case):
+        _real_n[0] += 1
+        shard_i = int(os.environ.get("VERIF_SHARD", "0"))
+        r = realdata.run_case(case, 32000 + shard_i * 40 + (_real_n[0] % 8) * 4, 1000 + shard_i * 6, f"v7r{os.getpid() % 10000}x{_real_n[0] % 1000}")
+        nt = r["transfers"] - r["redundant"] >= 1 and r["concurrent_commands"] >= 3
+        return nt, ["real_data_plane_sample"] + (["real_redundant_transfer"] if r["redundant"] else []) + (["real_fetch"] if r["fetches"] else []) + \
+            (["real_payload_over_1MB"] if any(d["size"] > 1_000_000 for d in case["datasets"]) else [])
+
+    return body
+
+
 def shard(seed, cases_n, tier):
+    from hypothesis import strategies as st
+
+    from .. import realdata
+
+    # real-process samples first (they fork; the in-memory harness below starts threads)
+    real = Stats()
+    common.hyp_run(st.composite(realdata.cases)(), _real_body(real), real, seed + 23, 4 if tier == "thorough" else 1, shrink=False, skip_first=True)
+    if real.violations:
+        return real
     st_ = Stats()
     common.hyp_run(cases(), run_case, st_, seed, cases_n)
+    st_.merge(real)
     return st_
 
 
 def replay(case):
+    if "datasets" in case and "script" in case and "hosts" not in case:
+        _real_body(None)(case)
+        return
     c = case
     if "case" in case and "log" in case:
         c = dict(case["case"])
